@@ -39,6 +39,9 @@ class DataArr:
 
     def __getitem__(self, s):
         if isinstance(s, slice) and s.step is None:
+            for bnd in (s.start, s.stop):
+                if bnd is not None and not isinstance(bnd, int) and lift(bnd).sort() != I:
+                    raise PyRaise("TypeError", "slice indices must be integers")  # e.g. a true division in a slice bound
             lo = z3.IntVal(0) if s.start is None else clampi(lift(s.start), self.n)
             hi = self.n if s.stop is None else clampi(lift(s.stop), self.n)
             return DataArr(z3.If(hi > lo, hi - lo, z3.IntVal(0)), lambda i, lo=lo: self.prov(i + lo), self.tag, self.rest)
@@ -48,6 +51,11 @@ class DataArr:
         if len(shape) == 1 and isinstance(shape[0], (tuple, list)):
             shape = tuple(shape[0])  # arr.reshape((a, b, ...)) and arr.reshape(a, b, ...) are the same call
         nb, bs = shape[0], shape[1]
+        from fjvc import values as _V
+        it_ = _V.cur()
+        if it_ is not None:
+            # reshape requires the same number of rows (otherwise JAX raises): an obligation at the call site
+            it_.emit("reshape/requires/same_number_of_rows", "pre", self.n == lift(nb) * lift(bs))
         return Batched(lift(nb), lift(bs), self)
 
 
